@@ -491,7 +491,8 @@ def check_pipeline(flavor, trans, seq, coll):
                     cs = int(f.qualifiers.get("codon_start", ["1"])[0]) - 1
                     if cs != sf:
                         viol.append("a.codon_start" + cds_class(tx))
-                    if trans:
+                    one_frame = tx["cds_frames"] == frames_from_start(cds, tx["strand"], sf)
+                    if trans and one_frame:      # a programmed frameshift cannot be expressed by a GenBank location
                         # no /translation = nothing translatable (the writer skips CDSs without a whole codon)
                         ind = independent_translation(f, rec.seq, 11 if flavor == "P" else 1)
                         if f.qualifiers.get("translation", [""])[0] != ind:
